@@ -75,6 +75,7 @@ class ListingBase(Machine):
         self.rel = None
         self.data = None
         self.skip = ()
+        self.dirty = False
         self.tier = ctx.knobs.get('tier')
 
     # ---------------------------------------------------------------- plumbing
@@ -99,6 +100,35 @@ class ListingBase(Machine):
 
     def exc_key(self, what, e):
         return '-'
+
+    def faulted(self, fn, what, at):
+        """Runs a navigation action with a transient read error (EIO) injected at the at-th
+        read of the action.  Returns True if the fault fired and the action failed with it (the
+        reader is then half-updated and the caller must position it again)."""
+        fs = self.ctx.fs
+        fs.begin_op(self.op_budget)
+        fs.arm('EIO', at)
+        nf = len(fs.fired)
+        try:
+            fn()
+        except OSError as e:
+            if len(fs.fired) > nf:
+                self.ctx.stats['fault_fired_EIO'] += 1
+                return True
+            raise Violation('EXC', '%s raised %s' % (what, _short_tb(e)))
+        except SimBudgetExceeded as e:
+            raise Violation('LIVE', '%s did not finish within its I/O step budget (%s)' % (what, e))
+        except (Violation, HarnessError, SimCrash):
+            raise
+        except Exception as e:
+            if len(fs.fired) > nf:
+                raise Violation('EXC-F', '%s raised a non-I/O error after an injected read error: '
+                                '%s' % (what, _short_tb(e)))
+            raise Violation('EXC', '%s raised %s' % (what, _short_tb(e)))
+        finally:
+            if fs.disarm() is not None:
+                self.ctx.stats['fault_armed_not_fired'] += 1
+        return False
 
     @staticmethod
     def fs_name(rel, data):
@@ -357,6 +387,8 @@ class NavMachine(ListingBase):
         k['weights'] = w
         k['nops'] = rng.choice((1, 2, 3, 4, 4, 6, 10, 30))
         k['multi'] = rng.random() < 0.8       # prefer listings with >= 2 result sets
+        r = rng.random()
+        k['fault_rate'] = 0.0 if r < 0.5 else (0.1 if r < 0.8 else 0.3)
         return k
 
     @classmethod
@@ -374,11 +406,19 @@ class NavMachine(ListingBase):
             elif kd == 'HISTORY':
                 ops.append([kd, [R(10 ** 6), R(2)] + sum(gen_selection(rng), []), None])
             else:
-                ops.append([kd, [R(10 ** 6), R(8)], None])
+                ch = [R(10 ** 6), R(8)]
+                if knobs.get('fault_rate') and rng.random() < knobs['fault_rate'] and \
+                        kd in ('FIRST', 'LAST', 'NEXT', 'PREV', 'INDEX', 'TIME', 'STEP'):
+                    # a transient read error inside the action, then the same request again
+                    ops.append([kd, ch, ['EIO', R(400), 0]])
+                    ops.append([kd, list(ch), None])
+                else:
+                    ops.append([kd, ch, None])
         return ops
 
     def apply(self, op):
         kind, ch = op[0], list(op[1]) + [0] * 4
+        fault = op[2] if len(op) > 2 else None
         ctx = self.ctx
         if kind == 'OPEN':
             self.op_OPEN(ch)
@@ -387,6 +427,29 @@ class NavMachine(ListingBase):
             ctx.stats['skip_noopen'] += 1
             return
         lst = self.lst
+        if fault is not None:
+            n_ = lst.num_fulltimes
+            act = {'FIRST': lst.first, 'LAST': lst.last, 'NEXT': lst.next, 'PREV': lst.prev,
+                   'INDEX': lambda: setattr(lst, 'index', ch[0] % (2 * n_) - n_),
+                   'TIME': lambda: setattr(lst, 'time', float(lst.fulltimes[ch[0] % n_])),
+                   'STEP': lambda: setattr(lst, 'step', int(lst.fullsteps[ch[0] % n_]))}[kind]
+            if self.faulted(act, kind + ' under a read error', fault[1]):
+                # The action failed part-way: the reader may report the new index with tables of
+                # the old one.  The property quantifies over action sequences, not over I/O
+                # errors, so nothing is asserted until an action that positions absolutely
+                # (first, last, index=, time=, step=) has succeeded (weakest reading).
+                ctx.probes['navigation_failed_with_read_error'] += 1
+                ctx.digest.add('FAULT', kind)
+                self.dirty = True
+                return
+            self.dirty = self.dirty and kind in ('NEXT', 'PREV')
+            ctx.digest.add('FAULT-NOT-FIRED', kind)
+            return
+        if getattr(self, 'dirty', False):
+            if kind in ('NEXT', 'PREV', 'HISTORY'):
+                ctx.stats['skip_relative_after_failed_action'] += 1
+                return
+            self.dirty = False
         n = lst.num_fulltimes
         before = lst.index
         what = kind
@@ -594,7 +657,9 @@ class HistoryMachine(ListingBase):
             r = rng.random()
             if r < 0.15:
                 ops.append(['OPEN', [R(10 ** 6), R(64)], None])
-            elif r < 0.4:
+            elif r < 0.25:
+                ops.append(['REPLACE', [R(10 ** 6), 1 + R(6)], None])
+            elif r < 0.45:
                 ops.append(['GOTO', [R(10 ** 6)], None])
             else:
                 ops.append(['HISTORY', [R(10 ** 6), R(4)] + sum(gen_selection(rng), []), None])
@@ -630,6 +695,21 @@ class HistoryMachine(ListingBase):
                 lst.index = i
             self.guarded(seti, 'index = %d' % i)
             ctx.digest.add('GOTO', i)
+            return
+        if kind == 'REPLACE':
+            # another run replaces the file under the same name (rename-over) while this reader
+            # has it open: the open reader goes on showing the file it opened, consistently for
+            # stepping and for history()
+            tmp = self.open_image(self.rel, self.data, ())
+            newdata, cells = self.choose_rewrites(self.data, tmp, random.Random(H('repl', ch[0])),
+                                                  ch[1])
+            tmp.close()
+            if not cells:
+                ctx.stats['skip_REPLACE'] += 1
+                return
+            ctx.fs.replace(self.fs_name(self.rel, self.data), newdata)
+            ctx.probes['file_replaced_under_open_reader'] += 1
+            ctx.digest.add('REPLACE', sha(newdata))
             return
         rng = random.Random(H('hist', ch[0]))
         sel = [ch[2 + 4 * k: 6 + 4 * k] for k in range((len(op[1]) - 2) // 4)]
@@ -940,13 +1020,38 @@ class TableMachine(ListingBase):
             lst.close()
         return _FRESH[key]
 
+    def position(self, lst, i, n, c):
+        """Go to result set i by one of the equivalent ways of addressing it."""
+        way = c % 4
+        if c % 7 == 6:
+            # a transient read error part-way through the positioning; the caller asks again
+            acts = {0: lambda: setattr(lst, 'index', i), 1: lambda: setattr(lst, 'index', i - n),
+                    2: lambda: setattr(lst, 'time', float(lst.fulltimes[i])),
+                    3: lambda: setattr(lst, 'step', int(lst.fullsteps[i]))}
+            if way >= 2 and (list(lst.fulltimes).count(lst.fulltimes[i]) > 1 or
+                             list(lst.fullsteps).count(lst.fullsteps[i]) > 1):
+                way = 0
+            if self.faulted(acts[way], 'positioning at result set %d' % i, (c // 7 * 37) % 400):
+                self.ctx.probes['positioning_retried_after_read_error'] += 1
+            self.guarded(acts[way], 'positioning at result set %d (retry)' % i)
+        elif way == 1:
+            self.guarded(lambda: setattr(lst, 'index', i - n), 'index = %d' % (i - n))
+        elif way == 2 and i == n - 1:
+            self.guarded(lst.last, 'last()')
+        elif way == 3 and i == 0:
+            self.guarded(lst.first, 'first()')
+        else:
+            self.guarded(lambda: setattr(lst, 'index', i), 'index = %d' % i)
+        if lst.index != i:
+            raise Violation('P0', 'positioning at result set %d of %d left index %d'
+                            % (i, n, lst.index))
+
     # ---- P3: independent tokeniser against the reader's cells
     def op_TOKENS(self, ch):
         n = self.nfull()
         i = ch[0] % n
         lst = self.reader(self.data)
-        if i:
-            self.guarded(lambda: setattr(lst, 'index', i), 'index = %d' % i)
+        self.position(lst, i, n, ch[1])
         located = locate_rows(self.data, lst, i)
         nfull = 0
         for L in located:
@@ -1003,8 +1108,8 @@ class TableMachine(ListingBase):
         order = list(range(n))
         rng.shuffle(order)
         order = order + [order[rng.randrange(n)] for _ in range(min(n, 3))]
-        for i in order:
-            self.guarded(lambda: setattr(lst2, 'index', i), 'index = %d' % i)
+        for vi, i in enumerate(order):
+            self.position(lst2, i, n, ch[1] + vi)
             got = self.snap(lst2)
             want = self.fresh_at(self.rel, old_data, (), i)
             if list(got[3]) != list(want[3]):
